@@ -76,6 +76,9 @@ type Exec struct {
 	slInv    map[string]bool
 	boxOf    map[string]boxedVal
 	curCall  *ssa.CallCommon
+	rpOn     bool // record access-path observations for method replay (replay2.go)
+	rpN      int
+	cbPred   string // walkpost predicate of the callback passed to the extern being applied
 	paramRefs []Term // references received as parameters (allocated at entry, hence always)
 	writeLog  []heapWrite
 	freshRefs map[string]bool // references allocated by this function
@@ -390,6 +393,18 @@ func (x *Exec) execInstr(in ssa.Instruction, st *State, pc Term) {
 		if !isAddrInstr(i.Addr) {
 			x.nonNil(st, pc, a, i.Pos())
 		}
+		if fa, ok := i.Addr.(*ssa.FieldAddr); ok {
+			if pt, ok := fa.X.Type().Underlying().(*types.Pointer); ok {
+				if named, ok := pt.Elem().(*types.Named); ok {
+					if _, isParamLike := fa.X.(*ssa.UnOp); isParamLike {
+						x.guardedWrite(fa.X, named.Obj().Name(), pt.Elem().Underlying().(*types.Struct).Field(fa.Field).Name(), st, pc, i.Pos())
+					}
+				}
+			}
+		}
+		if x.rpOn && a.Kind != aLocal {
+			x.rpObserve("store", x.addrPath(i.Addr, 0), x.operand(i.Val, st), i.Val.Type(), pc, 0)
+		}
 		x.storeAddr(st, a, x.operand(i.Val, st))
 	case *ssa.UnOp:
 		x.execUnOp(i, st, pc)
@@ -498,19 +513,17 @@ func (x *Exec) execInstr(in ssa.Instruction, st *State, pc Term) {
 		m := x.val(i.Map)
 		mt := i.Map.Type().Underlying().(*types.Map)
 		x.safety(st, pc, not(eq(m, tNil)), "nil-map-update", i.Pos())
-		if x.fc != nil {
-			for _, sa := range x.fc.SiteAsserts {
-				want := x.resolveType(sa.MapType, x.pkg)
-				if canonType(want.Go.Underlying()) != canonType(mt) {
-					continue
-				}
-				env := x.newEnv(st, x.entry)
-				env.at = i.Pos()
-				env.vars["k"] = SVal{T: x.val(i.Key), Ty: goT(mt.Key())}
-				env.vars["v"] = SVal{T: x.operand(i.Value, st), Ty: goT(mt.Elem())}
-				goal := x.evalClause(env, sa.C)
-				x.nsafety++
-				x.vc.oblige(&Obligation{Name: fmt.Sprintf("%s#%d", sa.C.Name, x.nsafety), Kind: "site-assert", Tags: sa.C.Tags, Goal: goal, PC: pc, Src: sa.C.Src, Pos: x.posStr(i.Pos()), Observe: x.observations()})
+		if b, sn, f, ok := guardedBase(i.Map); ok {
+			x.guardedWrite(b, sn, f, st, pc, i.Pos())
+		}
+		{
+			vv := x.operand(i.Value, st)
+			x.siteAssertsAt("mapupdate", mt, m, x.val(i.Key), &vv, st, pc, i.Pos())
+		}
+		if x.rpOn {
+			if mp := x.valPath(i.Map, 0); mp != nil && basicName(mt.Key()) != "" {
+				kt := x.val(i.Key)
+				x.rpObserve("store", mp.with(rpSeg{KT: basicName(mt.Key()), t: &kt}), x.operand(i.Value, st), mt.Elem(), pc, 0)
 			}
 		}
 		x.mapStore(st, mt, m, x.val(i.Key), x.operand(i.Value, st))
@@ -548,6 +561,9 @@ func (x *Exec) execInstr(in ssa.Instruction, st *State, pc Term) {
 		x.execCall(i, &i.Call, st, pc)
 	case *ssa.Go:
 		x.dropped["go statement at "+x.posStr(i.Pos())+": spawned goroutine not executed in this thread"] = true
+		if x.eng.ghostDecl("concurrent") != nil {
+			st.ghosts["concurrent"] = tTrue // from here on other goroutines of this device may run
+		}
 	case *ssa.Defer:
 		x.dropped["defer at "+x.posStr(i.Pos())+": deferred call treated as effect-free on modelled state"] = true
 	case *ssa.RunDefers:
@@ -656,6 +672,83 @@ func (x *Exec) mapStore(st *State, mt *types.Map, m, k, v Term) {
 	x.heapSet(st, mp, sto(hp, m, sto(sel(hp, m), k, tTrue)))
 }
 
+// guardedBase: if v is (derived from) a map/slice loaded from a guarded field of a struct pointer, the pointer and field
+func guardedBase(v ssa.Value) (ssa.Value, string, string, bool) {
+	for depth := 0; depth < 6; depth++ {
+		switch u := v.(type) {
+		case *ssa.UnOp:
+			if u.Op != token.MUL {
+				return nil, "", "", false
+			}
+			fa, ok := u.X.(*ssa.FieldAddr)
+			if !ok {
+				return nil, "", "", false
+			}
+			pt, ok := fa.X.Type().Underlying().(*types.Pointer)
+			if !ok {
+				return nil, "", "", false
+			}
+			named, ok := pt.Elem().(*types.Named)
+			if !ok {
+				return nil, "", "", false
+			}
+			return fa.X, named.Obj().Name(), pt.Elem().Underlying().(*types.Struct).Field(fa.Field).Name(), true
+		case *ssa.Lookup:
+			v = u.X
+		default:
+			return nil, "", "", false
+		}
+	}
+	return nil, "", "", false
+}
+
+// guardedWrite: obligation that a write to a guarded field (or to a map held in one) happens under its mutex
+func (x *Exec) guardedWrite(base ssa.Value, structName, field string, st *State, pc Term, pos token.Pos) {
+	for _, g := range x.eng.cf.Guarded {
+		if g.Struct != structName || !g.Fields[field] {
+			continue
+		}
+		if x.eng.ghostDecl("locked") == nil || x.eng.ghostDecl("concurrent") == nil {
+			ufail("guarded_by needs ghost vars `locked set[Ref]` and `concurrent bool`")
+		}
+		pt := base.Type().Underlying().(*types.Pointer)
+		stt := pt.Elem().Underlying().(*types.Struct)
+		mi := fieldIndex(stt, g.Mutex)
+		hn, hs := x.fieldHeap(pt.Elem(), mi)
+		mu := sel(x.heapGet(st, hn, hs), x.val(base))
+		goal := or(sel(x.ghostGet(st, "locked"), mu), not(x.ghostGet(st, "concurrent")))
+		x.nsafety++
+		x.vc.oblige(&Obligation{Name: fmt.Sprintf("%s.guarded-write(%s.%s)#%d", x.fnName(), structName, field, x.nsafety), Kind: "lock-discipline", Tags: g.Tags,
+			Goal: goal, PC: pc, Src: "write to " + structName + "." + field + " only while " + g.Mutex + " is held (or before the goroutines start / after they are joined)", Pos: x.posStr(pos)})
+	}
+}
+
+// siteAssertsAt: `siteassert mapupdate(T)` / `siteassert mapdelete(T)` clauses matching a map operation
+func (x *Exec) siteAssertsAt(kind string, mt *types.Map, m, k Term, v *Term, st *State, pc Term, pos token.Pos) {
+	if x.fc == nil {
+		return
+	}
+	for _, sa := range x.fc.SiteAsserts {
+		if sa.Kind != kind {
+			continue
+		}
+		want := x.resolveType(sa.MapType, x.pkg)
+		if canonType(want.Go.Underlying()) != canonType(mt) {
+			continue
+		}
+		env := x.newEnv(st, x.entry)
+		env.at = pos
+		env.vars["k"] = SVal{T: k, Ty: goT(mt.Key())}
+		env.vars["m"] = SVal{T: m, Ty: goT(mt)}
+		if v != nil {
+			env.vars["v"] = SVal{T: *v, Ty: goT(mt.Elem())}
+		}
+		goal := x.evalClause(env, sa.C)
+		x.nsafety++
+		x.vc.oblige(&Obligation{Name: fmt.Sprintf("%s#%d", sa.C.Name, x.nsafety), Kind: "site-assert", Tags: sa.C.Tags, Goal: goal, PC: pc, Src: sa.C.Src, Pos: x.posStr(pos), Observe: x.observations()})
+	}
+}
+
 func (x *Exec) mapDelete(st *State, mt *types.Map, m, k Term) {
 	_, mp, _, mpS, _, _ := x.mapHeaps(mt)
 	hp := x.heapGet(st, mp, mpS)
@@ -678,6 +771,9 @@ func (x *Exec) execUnOp(i *ssa.UnOp, st *State, pc Term) {
 		if fa, ok := i.X.(*ssa.FieldAddr); ok && a.Kind != aLocal && (v.Sort.isBV() || v.Sort == SBool || v.Sort == SF64 || v.Sort == SStr) {
 			stt := fa.X.Type().Underlying().(*types.Pointer).Elem().Underlying().(*types.Struct)
 			x.observe = append(x.observe, Observation{Label: fmt.Sprintf("load %s .%s", x.posStr(i.Pos()), stt.Field(fa.Field).Name()), T: x.vals[i]})
+		}
+		if x.rpOn && a.Kind != aLocal {
+			x.rpObserve("load", x.valPath(i, 0), x.vals[i], i.Type(), pc, 0)
 		}
 	case token.NOT:
 		x.vals[i] = not(x.val(i.X))
@@ -720,6 +816,12 @@ func (x *Exec) execLookup(i *ssa.Lookup, st *State, pc Term) {
 		v := x.vc.define(i.Name(), ite(pres, raw, x.w.zeroOf(xt.Elem())))
 		x.observe = append(x.observe, Observation{Label: fmt.Sprintf("lookup %s key", x.posStr(i.Pos())), T: k},
 			Observation{Label: fmt.Sprintf("lookup %s present", x.posStr(i.Pos())), T: pres})
+		if x.rpOn {
+			if lp := x.valPath(i, 0); lp != nil {
+				x.rpEmit("present", lp, pres, "bool", pc)
+				x.rpObserve("load", lp, v, xt.Elem(), pc, 0)
+			}
+		}
 		if i.CommaOk {
 			x.tuples[i] = []Term{v, pres}
 		} else {
@@ -836,6 +938,7 @@ func (x *Exec) execSend(i *ssa.Send, st *State, pc Term) {
 	key := x.chanKey(i.Chan)
 	v := x.val(i.X)
 	vt := goT(i.X.Type())
+	x.rpSend(i, v, st, pc)
 	matched := false
 	for _, c := range x.eng.cf.SendAsserts[key] {
 		env := x.newEnv(st, x.entry)
